@@ -352,6 +352,9 @@ func checkC17(r *vt.Run) {
 		{[]string{"az1-r1", "az1-r2", "az2-r3"}, ""},
 		// a separator of several characters, each of which also occurs inside the zone names
 		{[]string{"bd1.db.r1", "bd1.db.r2", "bb2.db.r3"}, ".db."},
+		// zone names with upper-case letters, two of them equal up to case (seeded/C17-h): zones are
+		// compared as written, at the filter and at the count of hosts taken offline in this pass
+		{[]string{"azB-r1", "azB-r2", "azb-r3"}, "-"},
 	}
 	pcts := []int{0, 1, 32, 33, 34, 50, 66, 99, 100}
 	nrep := 3
@@ -364,6 +367,7 @@ func checkC17(r *vt.Run) {
 			{[]string{"az1-r1", "az1-r2", "az1-r3", "plain4"}, "-"},
 			{[]string{"az1-r1", "az1-r2", "az2-r3", "az2-r4"}, ""},
 			{[]string{"bd1.db.r1", "bd1.db.r2", "bb2.db.r3", "bb2.db.r4"}, ".db."},
+			{[]string{"azB-r1", "azB-r2", "azB-r3", "azb-r4"}, "-"},
 		}
 	}
 	r.Bound("grid_b_replicas", nrep)
